@@ -262,8 +262,10 @@ class JSONSerialization(Serialization):
     @classmethod
     def selector_schema(cls, p, safe=False):
         try:
+            # (every object, also one appended without a name when
+            # check_on_set is False)
             allowed_types = [{'type': cls.json_schema_literal_types[type(obj)]}
-                             for obj in p.objects.values()]
+                             for obj in p.objects]
             # ("anyOf" must not be empty in a JSON schema)
             schema = {'anyOf': allowed_types} if allowed_types else {}
             schema['enum'] = p.objects
